@@ -444,24 +444,3 @@ def do_set_config(state, items, mode="update"):
 def all_keys_canon(state, how):
     return {t: canon(lineage(state, t), how) for t in registered_types(state)}
 
-
-def hashlike(d):
-    """Value identity as a json dump sees it (tuple = list = array, numpy scalars = python numbers, but 1 != 1.0 !=
-    True).  Only used to attribute failures to recorded findings (when is the plugin cache dropped), never as oracle."""
-    k = d["k"]
-    if k in ("int", "str", "bool"):
-        return [k, d["v"]]
-    if k == "float":
-        return [k, repr(float(d["v"]))]
-    if k == "none":
-        return [k]
-    if k in ("tuple", "list"):
-        return ["seq", [hashlike(x) for x in d["v"]]]
-    if k in ("dict", "imm"):
-        return ["map", sorted([kk, hashlike(x)] for kk, x in d["v"])]
-    if k == "np":
-        v = np.dtype(d["t"]).type(d["v"])
-        return ["float", repr(float(v))] if np.dtype(d["t"]).kind == "f" else ["int", int(v)]
-    if k == "arr":
-        return ["seq", json.dumps(np.array(d["v"], dtype=d["t"]).tolist())]
-    raise ValueError(d)
